@@ -36,7 +36,7 @@ pub fn dispatch(op: &str, req: &Value) -> Result<Value, String> {
             let d2 = Dictionary::load(&out).map_err(|e| e.to_string())?;
             let mut items2: Vec<(String, usize)> = d2.items().map(|(k, v)| (k.clone(), *v)).collect();
             items2.sort();
-            let closest = req["query"].as_str().and_then(|q| d.get_closest(q, DictionaryDistanceMeasure::EditDistance)).map(|(t, f, _)| json!([t, f]));
+            let closest = req["query"].as_str().and_then(|q| d.get_closest(q, if req["normalized"].as_bool().unwrap_or(false) { DictionaryDistanceMeasure::NormalizedEditDistance } else { DictionaryDistanceMeasure::EditDistance })).map(|(t, f, _)| json!([t, f]));
             let _ = std::fs::remove_dir_all(&dir);
             Ok(json!({"items": items, "freq_sum": d.freq_sum, "roundtrip": items == items2 && d.freq_sum == d2.freq_sum, "closest": closest}))
         }
